@@ -1,6 +1,7 @@
 import MageModel.Gen.Dispatch
 import MageModel.Gen.Main
 import MageModel.Invoke.Front
+import MageModel.Gen.StrconvLemmas
 /-!
 # C04 — command-line words run exactly the named targets with converted arguments
 All `PkgInfo`s (any mix of plain, namespaced, imported and aliased targets, any parameter lists), all word lists,
@@ -195,5 +196,73 @@ def exConv : Conv := ⟨fun w => if w = "7" then some 7 else none, fun _ => none
 example : (dispatch exInfo exConv (fun _ => 0) 9 ["B", "7", "CLEAN"]).calls =
     [⟨"<current>.Build", [.int 7]⟩, ⟨"<current>.Clean", []⟩] := by decide
 example : (dispatch exInfo exConv (fun _ => 0) 9 ["build", "x", "clean"]).status = 2 := by decide
+
+/-! ### The conversions are the standard library's, transcribed (`Gen/Strconv.lean`), not recorded answers
+
+`stdConv` instantiates every theorem above (they hold for all `conv`); the statements below are about the concrete
+`strconv.Atoi`, `strconv.ParseBool` and `time.ParseDuration`. -/
+
+/-- **int via strconv.Atoi**: the decimal numeral of any `n < 2^63` given to an `int` parameter arrives as `n` -/
+theorem int_word_decimal (name : String) (n : Nat) (h : n < Strconv.two63) :
+    convertArgs stdConv [⟨name, "int"⟩] [Nat.repr n] = .ok [.int n] := by
+  simp [convertArgs, stdConv, Strconv.atoi_repr n h]
+
+/-- … and `-n` down to −2^63 -/
+theorem int_word_negative (name : String) (n : Nat) (h : n ≤ Strconv.two63) :
+    convertArgs stdConv [⟨name, "int"⟩] ["-" ++ Nat.repr n] = .ok [.int (-(n : Int))] := by
+  simp [convertArgs, stdConv, Strconv.atoi_neg_repr n h]
+
+/-- every `int` a target receives fits 64 bits -/
+theorem int_arg_in_range (name w : String) (i : Int) (h : convertArgs stdConv [⟨name, "int"⟩] [w] = .ok [.int i]) :
+    -(Strconv.two63 : Int) ≤ i ∧ i < (Strconv.two63 : Int) := by
+  simp only [convertArgs, stdConv] at h
+  cases ha : Strconv.atoi w with
+  | none => rw [ha] at h; cases h
+  | some j => rw [ha] at h; cases h; exact Strconv.atoi_range w _ ha
+
+/-- **bool via strconv.ParseBool**: `true` arrives exactly for the six spellings -/
+theorem bool_word_true_iff (name w : String) :
+    convertArgs stdConv [⟨name, "bool"⟩] [w] = .ok [.bool true] ↔ w ∈ ["1", "t", "T", "TRUE", "true", "True"] := by
+  rw [← Strconv.parseBool_true_iff]
+  simp only [convertArgs, stdConv]
+  cases hb : Strconv.parseBool w with
+  | none => simp
+  | some b => cases b <;> simp
+
+/-- every duration a target receives is an `int64` count of nanoseconds -/
+theorem duration_arg_in_range (name w : String) (d : Int)
+    (h : convertArgs stdConv [⟨name, "time.Duration"⟩] [w] = .ok [.dur d]) :
+    -(Strconv.two63 : Int) ≤ d ∧ d < (Strconv.two63 : Int) := by
+  simp only [convertArgs, stdConv] at h
+  cases ha : Strconv.parseDuration w with
+  | none => rw [ha] at h; cases h
+  | some j => rw [ha] at h; cases h; exact Strconv.parseDuration_range w _ ha
+
+/-- **the empty word converts to nothing but a string**: `mage t ""` stops with status 2 for an `int`, `bool` or
+`time.Duration` parameter (no "empty means zero" shortcut) -/
+theorem empty_word_rejected (name : String) :
+    convertArgs stdConv [⟨name, "int"⟩] [""] = .error (.badArg "int" "") ∧
+    convertArgs stdConv [⟨name, "bool"⟩] [""] = .error (.badArg "bool" "") ∧
+    convertArgs stdConv [⟨name, "time.Duration"⟩] [""] = .error (.badArg "time.Duration" "") ∧
+    convertArgs stdConv [⟨name, "string"⟩] [""] = .ok [.str ""] := by
+  refine ⟨?_, ?_, ?_, ?_⟩
+  · have : Strconv.atoi "" = none := by decide
+    simp [convertArgs, stdConv, this]
+  · have : Strconv.parseBool "" = none := by decide
+    simp [convertArgs, stdConv, this]
+  · have : Strconv.parseDuration "" = none := by decide
+    simp [convertArgs, stdConv, this]
+  · simp [convertArgs]
+
+/-- an unconvertible word stops the run with status 2 and **no** call, whatever follows -/
+theorem unconvertible_stops (info : PkgInfo) (outcome : Call → Int) (fuel : Nat) (w a : String) (rest : List String)
+    (f : Function) (name : String) (hr : resolve info w = some f) (hargs : f.args = [⟨name, "int"⟩])
+    (ha : Strconv.atoi a = none) :
+    dispatch info stdConv outcome (fuel + 1) (w :: a :: rest) = ⟨[], 2, some (.badArg "int" a)⟩ := by
+  simp [dispatch, hr, hargs, convertArgs, stdConv, ha]
+
+example : (dispatch exInfo stdConv (fun _ => 0) 9 ["B", "7", "CLEAN"]).status = 0 := by decide
+example : (dispatch exInfo stdConv (fun _ => 0) 9 ["B", "", "CLEAN"]).status = 2 := by decide
+example : (dispatch exInfo stdConv (fun _ => 0) 9 ["B", "0x7", "CLEAN"]).calls = [] := by decide
 
 end MageModel.Props.C04
